@@ -226,3 +226,16 @@ SPECS["C13"] = {
     "outside": ["quoted fields (LazyQuotes semantics are not re-specified)", "cells longer than 2 bytes", "inputs outside the stated alphabets for the converse"],
     "assumptions": [],
 }
+
+SPECS["C19"] = {
+    "explanation": "The real zipContains / Xlsx / Docx / Pptx / Jar / APK / ODF offset checks on archives laid out by a harness-side zip writer (APPNOTE layout as "
+                   "archive/zip produces it), with symbolic name and body bytes; the oracle is the entry list that was written.",
+    "units": [
+        {"name": "zip", "pkg": "magic", "harnesses": ["HC19"], "quick_args": fix(tier=0), "thorough_args": fix(tier=1), "quick_shards": 32, "thorough_shards": 64},
+    ],
+    "must_reach": ["end", "assert:docx-identified", "assert:xlsx-identified", "assert:pptx-identified", "assert:jar-identified", "assert:odt-identified", "assert:xlsx-implies-marker"],
+    "bounds": {"quick": {"archives": "first entry from 7 names (with/without data descriptor), OOXML marker as 2nd..6th entry or absent, 0..4 fillers of one of 4 kinds (tiny stored, deflated+descriptor, bookkeeping part, near-miss 'xl'+'/...'), optional trailer; symbolic name/body bytes from a..o; limit 0"},
+               "thorough": {"archives": "as quick with an independent filler kind per position"}},
+    "outside": ["bodies or names containing a zip signature", "extra fields", "zip64", "archives with more than 7 entries", "APK markers"],
+    "assumptions": ["no PK\\x03\\x04 outside real local headers (symbolic bytes are restricted to a..o)"],
+}
